@@ -92,6 +92,13 @@ def work(spec):
     ll, diag = fe.ir(spec['harness'], spec['inst'], spec['flavour'], spec.get('extra', ()), spec.get('defs', ()))
     if ll is None:
         ok, gdiag, gcmd = fe.gate(spec['harness'], spec['inst'], ndebug=spec['flavour'] in ('rel', 'san'), defs=spec.get('defs', ()))
+        if not ok and not error_in_library(gdiag):
+            # the unit is rejected because of the harness's own code: a defect of the machinery, never a finding
+            return {'name': spec['name'], 'harness': spec['harness'], 'inst': spec['inst'], 'flavour': spec['flavour'],
+                    'mode': spec['mode'], 'verdict': 'inconclusive',
+                    'inconclusive': ['harness does not compile (error outside /repo/lib): ' + first_error(gdiag)], 'failures': [],
+                    'n_failures': 0, 'asserts': {}, 'paths': 0, 'instrs': 0, 'queries': {}, 'solver_s': 0,
+                    'wall_s': round(time.time() - t0, 2), 'functions': [], 'externals': [], 'traces': [], 'spec': spec}
         if not ok:
             return {'name': spec['name'], 'harness': spec['harness'], 'inst': spec['inst'], 'flavour': spec['flavour'],
                     'mode': spec['mode'], 'verdict': 'illformed', 'diagnostic': first_error(gdiag), 'command': gcmd,
@@ -151,6 +158,15 @@ def run_unit_subprocess(fe, ll, spec):
             'mode': spec['mode'], 'verdict': 'inconclusive', 'inconclusive': [why], 'failures': [], 'n_failures': 0,
             'asserts': {}, 'paths': 0, 'instrs': 0, 'queries': {}, 'solver_s': 0, 'wall_s': round(time.time() - t0, 2),
             'functions': [], 'externals': [], 'traces': []}
+
+
+def error_in_library(diag):
+    """is the first hard error located in the repository's headers (and not in /verif/harness)?"""
+    for l in diag.splitlines():
+        if ' error: ' in l or ' error:' in l:
+            loc = l.split(':', 1)[0]
+            return '/lib/' in loc and 'covfie' in loc
+    return False
 
 
 def first_error(diag):
